@@ -17,12 +17,18 @@ Lemma rt_bin k l l' r r' : rt l l' -> rt r r' -> rt (Bin k l r) (Bin k l' r').
 Proof. intros [D1 V1] [D2 V2]. split; [intros rho; cbn [den]; now rewrite D1, D2|cbn [vars]; now rewrite V1, V2]. Qed.
 Lemma numR_nneg_opt a : numR (nneg a) = option_map Ropp (numR a).
 Proof. destruct (numR a) as [x|] eqn:E; cbn [option_map]; [now apply numR_nneg|]. destruct a; try discriminate E; reflexivity. Qed.
+Lemma num_equiv_R a b : num_equiv a b -> numR a = numR b.
+Proof. Local Transparent numR. unfold num_equiv, numR. destruct (qv a), (qv b); try contradiction. intros H. cbn [option_map]. f_equal. now apply Qreals.Qeq_eqR. Qed.
+Lemma rt_const c c' : num_equiv c' c -> rt (Const c) (Const c').
+Proof. intros H. split; [intros rho; cbn [den]; now apply num_equiv_R|reflexivity]. Qed.
 Lemma rt_neg_const v : rt (Un UNeg (Const v)) (Const (nneg v)).
 Proof. split; [intros rho; cbn [den]; apply numR_nneg_opt|reflexivity]. Qed.
-Lemma rt_neg_compact v f f' : rt f f' -> rt (Un UNeg (Bin KMul (Const v) f)) (Bin KMul (Const (nneg v)) f').
+Lemma rt_neg_const' c v : num_equiv v c -> rt (Un UNeg (Const c)) (Const (nneg v)).
+Proof. intros H. split; [intros rho; cbn [den]; rewrite numR_nneg_opt; now rewrite (num_equiv_R _ _ H)|reflexivity]. Qed.
+Lemma rt_neg_compact c v f f' : num_equiv v c -> rt f f' -> rt (Un UNeg (Bin KMul (Const c) f)) (Bin KMul (Const (nneg v)) f').
 Proof.
-  intros [D V]. split; [|cbn [vars]; now rewrite V]. intros rho. cbn [den]. rewrite D, numR_nneg_opt.
-  destruct (numR v), (den rho f); cbn [option_map bind2 binop]; try reflexivity. f_equal. lra.
+  intros HE [D V]. split; [|cbn [vars]; now rewrite V]. intros rho. cbn [den]. rewrite D, numR_nneg_opt, (num_equiv_R _ _ HE).
+  destruct (numR c), (den rho f); cbn [option_map bind2 binop]; try reflexivity. f_equal. lra.
 Qed.
 
 (* ---------- the level of a printed phrase and what a context needs ---------- *)
@@ -145,9 +151,9 @@ Lemma phrase_main : forall n e, Expr.size e <= n -> pr0 e -> Goal_ e.
 Proof.
   induction n as [|n IH]; intros e SZ P; [destruct e; cbn [Expr.size] in SZ; lia|].
   destruct e as [c|v|u c|k l r].
-  - (* constant *) intros parent. destruct P as (neg & run & v & CT). exists (Const c). split; [apply rt_refl|].
-    assert (PConstF (ptoks (Const c) parent) (Const c)) as PC.
-    { cbn [ptoks]. rewrite (num_toks_eq c neg run v CT). destruct CT as (_ & _ & _ & Hc & Hv & _). rewrite <- Hv. apply PC_const. exact Hc. }
+  - (* constant *) intros parent. destruct P as (neg & run & v & CT). pose proof CT as (_ & _ & _ & Hc & Hv). exists (Const (sg neg v)). split; [apply rt_const; exact Hv|].
+    assert (PConstF (ptoks (Const c) parent) (Const (sg neg v))) as PC.
+    { cbn [ptoks]. rewrite (num_toks_eq c neg run v CT). apply PC_const. exact Hc. }
     apply (Ph_up LConstF); [destruct parent as [[[] []]|]; reflexivity|exact PC].
   - (* variable *) intros parent. exists (Var v). split; [apply rt_refl|]. apply (Ph_up LAtom); [destruct parent as [[[] []]|]; reflexivity|apply PA_var].
   - cbn [Expr.size] in SZ. destruct u.
@@ -159,9 +165,9 @@ Proof.
         - unfold neg_wrap in W. destruct (show_total c None P) as (s & S). rewrite S in W.
           apply orb_false_iff in W. destruct W as [W SM]. apply orb_false_iff in W. destruct W as [LO LF].
           destruct c as [c0|x|u2 c2|k2 l2 r2].
-          + (* -literal *) destruct P as (neg & run & v & CT). cbn [show] in S. pose proof CT as (Hs & _ & _ & Hc & Hv & _). rewrite Hs in S. inversion S; subst s.
+          + (* -literal *) destruct P as (neg & run & v & CT). cbn [show] in S. pose proof CT as (Hs & _ & _ & Hc & Hv). rewrite Hs in S. inversion S; subst s.
             pose proof (const_text_first c0 neg run v [] CT) as CF. rewrite app_nil_r in CF. destruct neg; [rewrite CF in SM; discriminate SM|].
-            cbn [sg] in Hv. subst c0. exists (Const (nneg v)). split; [apply rt_neg_const|]. cbn [ptoks]. rewrite (num_toks_eq v false run v CT). cbn [minus app].
+            exists (Const (nneg v)). split; [apply rt_neg_const'; exact Hv|]. cbn [ptoks]. rewrite (num_toks_eq c0 false run v CT). cbn [minus app].
             apply PU_c. exact (PC_const true run v Hc).
           + exists (Un UNeg (Var x)). split; [apply rt_refl|]. cbn [ptoks]. apply PU_neg, PF_atom, PA_var.
           + destruct u2.
@@ -191,22 +197,21 @@ Proof.
               2: { (* a / b always has spaces *) cbn [compact] in S. inversion S; subst s. unfold self_parens in LO. rewrite has_space_app in LO. discriminate LO. }
               (* product: compact (no space) or not *)
               destruct (compact KMul l2 r2) eqn:CP.
-              -- destruct (compact_inv l2 r2 CP) as (c0 & -> & Hr). destruct Pl as (neg & run & v & CT). cbn [show] in Sa. pose proof CT as (Hs & _ & _ & Hc & Hv & _).
+              -- destruct (compact_inv l2 r2 CP) as (c0 & -> & Hr). destruct Pl as (neg & run & v & CT). cbn [show] in Sa. pose proof CT as (Hs & _ & _ & Hc & Hv).
                  rewrite Hs in Sa. inversion Sa; subst a. inversion S; subst s.
-                 pose proof (const_text_first c0 neg run v b CT) as CF. destruct neg; [rewrite CF in SM; discriminate SM|]. cbn [sg] in Hv. subst c0.
+                 pose proof (const_text_first c0 neg run v b CT) as CF. destruct neg; [rewrite CF in SM; discriminate SM|].
                  assert (match r2 with Var _ => True | Bin KPow (Var _) r3 => Goal_ r3 | _ => False end) as GR.
                  { destruct r2 as [|x| |[] [] r3]; try contradiction; try exact I. cbn [pr0 Expr.size] in *. apply (IH r3); [lia|tauto]. }
                  destruct (compact_factors r2 GR) as (x & ft & f' & Et & Rf & PF).
-                 exists (Bin KMul (Const (nneg v)) f'). split; [now apply rt_neg_compact|].
-                 cbn [ptoks]. rewrite CP. cbn [ptoks]. rewrite (num_toks_eq v false run v CT), Et. cbn [minus app].
+                 exists (Bin KMul (Const (nneg v)) f'). split; [apply rt_neg_compact; [exact Hv|exact Rf]|].
+                 cbn [ptoks]. rewrite CP. cbn [ptoks]. rewrite (num_toks_eq c0 false run v CT), Et. cbn [minus app].
                  exact (PU_compact true run v x ft f' Hc PF).
               -- inversion S; subst s. cbn [self_parens] in LO. rewrite has_space_app in LO. discriminate LO. }
       exists e'. split; [exact R|]. apply (Ph_up LUnary); [destruct parent as [[[] []]|]; reflexivity|exact PU].
-    + (* factorial of a literal *) cbn [pr0] in P. destruct P as [[n0 ->] (neg & run & v & CT)]. intros parent.
-      exists (Un UFact (Const n0)). split; [apply rt_refl|].
-      assert (PConstF (ptoks (Un UFact (Const n0)) parent) (Un UFact (Const n0))) as PC.
-      { cbn [ptoks]. rewrite (num_toks_eq n0 neg run v CT). destruct CT as (_ & _ & _ & Hc & Hv & _). rewrite <- Hv. rewrite <- app_assoc. cbn [app].
-        exact (PC_fact neg run v Hc). }
+    + (* factorial of a literal *) cbn [pr0] in P. destruct P as [[n0 ->] (neg & run & v & CT)]. intros parent. pose proof CT as (_ & _ & _ & Hc & Hv).
+      exists (Un UFact (Const (sg neg v))). split; [apply rt_un, rt_const; exact Hv|].
+      assert (PConstF (ptoks (Un UFact (Const n0)) parent) (Un UFact (Const (sg neg v)))) as PC.
+      { cbn [ptoks]. rewrite (num_toks_eq n0 neg run v CT). rewrite <- app_assoc. cbn [app]. exact (PC_fact neg run v Hc). }
       apply (Ph_up LConstF); [destruct parent as [[[] []]|]; reflexivity|exact PC].
     + (* sgn *) cbn [pr0] in P. intros parent. destruct (IH c ltac:(lia) P None) as (c' & Rc & Pc). cbn [need Ph] in Pc.
       exists (Un USgn c'). split; [now apply rt_un|]. apply (Ph_up LAtom); [destruct parent as [[[] []]|]; reflexivity|].
@@ -242,12 +247,12 @@ Proof.
              [apply (Ph_up LAtom); [destruct parent as [[[] []]|]; reflexivity|apply paren_atom, add_of_mult; exact BODY]
              |apply (Ph_up LMult); [destruct parent as [[[] []]|]; vm_compute in SP; try discriminate SP; reflexivity|exact BODY]]. }
       cbn [ptoks]. destruct (compact KMul l r) eqn:CP.
-      * (* compact product *) destruct (compact_inv l r CP) as (c0 & -> & Hr). destruct Pl as (neg & run & v & CT). pose proof CT as (_ & _ & _ & Hc & Hv & _).
+      * (* compact product *) destruct (compact_inv l r CP) as (c0 & -> & Hr). destruct Pl as (neg & run & v & CT). pose proof CT as (_ & _ & _ & Hc & Hv).
         assert (match r with Var _ => True | Bin KPow (Var _) r3 => Goal_ r3 | _ => False end) as GR.
         { destruct r as [|x| |[] [] r3]; try contradiction; try exact I. cbn [pr0 Expr.size] in *. apply (IH r3); [lia|tauto]. }
         destruct (compact_factors r GR) as (x & ft & f' & Et & Rf & PF).
-        exists (Bin KMul (Const c0) f'). split; [apply rt_bin; [apply rt_refl|exact Rf]|].
-        cbn [ptoks]. rewrite (num_toks_eq c0 neg run v CT), Et, <- app_assoc. cbn [app]. rewrite <- Hv.
+        exists (Bin KMul (Const (sg neg v)) f'). split; [apply rt_bin; [apply rt_const; exact Hv|exact Rf]|].
+        cbn [ptoks]. rewrite (num_toks_eq c0 neg run v CT), Et, <- app_assoc. cbn [app].
         apply (Ph_up LUnary); [apply need_compact; exact CP|exact (PU_compact neg run v x ft f' Hc PF)].
       * destruct (Gl (Some (KMul, DL))) as (l' & Rl & PL); destruct (Gr (Some (KMul, DR))) as (r' & Rr & PR); cbn [need Ph] in PL, PR.
         assert (PMult (ptoks l (Some (KMul, DL)) ++ op_tok KMul :: ptoks r (Some (KMul, DR))) (Bin KMul l' r')) as BODY by (apply PM_mul; assumption).
